@@ -130,6 +130,8 @@ static enum websocket_callback_return private_decompress(struct websocket *s, ui
 	uint8_t *in = malloc(length + 4);
 	if (in == NULL) {
 		log_err("inflate in error: malloc");
+		strm->avail_in = 0;
+		strm->next_in = Z_NULL;
 		return WS_ERROR;
 	}
 	if (length > 0) {
